@@ -138,6 +138,14 @@ func (a *analysis) result() *result {
 			a.class(name, rw)
 		}
 	}
+	for l, g := range a.cfg.Gates {
+		if !strings.HasPrefix(l, "bolt.") {
+			die("guards.json: gates are only supported for bbolt pseudo-locks, not %q", l)
+		}
+		if a.classes[g] == nil {
+			die("guards.json: gate %q of %q is not a lock class of the program", g, l)
+		}
+	}
 	names := make([]string, 0, len(a.classes))
 	for n := range a.classes {
 		names = append(names, n)
@@ -290,6 +298,11 @@ func (a *analysis) result() *result {
 	// lock-order edges: direct ones plus held-at-call × acquired-by-callee*
 	acq := a.acquireClosure()
 	for _, pe := range a.pending {
+		if len(acq[pe.callee]) > 0 {
+			for _, row := range pe.rows {
+				row.nonLeaf = true
+			}
+		}
 		for to := range acq[pe.callee] {
 			for _, from := range pe.may {
 				a.edge(from, to, pe.pos+" via "+a.chain(pe.callee, to))
@@ -345,6 +358,91 @@ func (a *analysis) result() *result {
 			res.Summary.RankCycle++
 		}
 	}
+
+	// gates and the acquisition sites of gated locks
+	var gl []string
+	for l := range a.cfg.Gates {
+		gl = append(gl, l)
+	}
+	sort.Strings(gl)
+	for _, l := range gl {
+		if _, ok := byName[l]; !ok {
+			continue // the program no longer uses this lock
+		}
+		res.Gates = append(res.Gates, gateOut{Lock: byName[l], Gate: byName[a.cfg.Gates[l]], Name: l + " gated by " + a.cfg.Gates[l]})
+	}
+	type acqKey struct {
+		fn     string
+		lock   int
+		sh, ex string
+	}
+	acqRows := map[acqKey]*acqOut{}
+	for _, st := range a.acqSites {
+		if st.init {
+			continue
+		}
+		sh, ex := []int{}, []int{}
+		for _, x := range st.shared {
+			sh = append(sh, remap[x])
+		}
+		for _, x := range st.excl {
+			ex = append(ex, remap[x])
+		}
+		sh, ex = sortedUniq(sh), sortedUniq(ex)
+		lock := remap[st.class]
+		gate := byName[a.cfg.Gates[res.Locks[lock].Name]]
+		if st.top {
+			ex = sortedUniq(append(ex, gate))
+		}
+		k := acqKey{st.fn, lock, fmt.Sprint(sh, !st.nonLeaf), fmt.Sprint(ex)}
+		r := acqRows[k]
+		if r == nil {
+			r = &acqOut{Func: st.fn, Lock: lock, LockName: res.Locks[lock].Name, HeldShared: sh, HeldExcl: ex, Leaf: !st.nonLeaf,
+				OK: containsInt(sh, gate) || containsInt(ex, gate) || !st.nonLeaf}
+			acqRows[k] = r
+		}
+		r.Pos = append(r.Pos, st.pos)
+	}
+	for _, r := range acqRows {
+		sort.Strings(r.Pos)
+		r.Pos = uniq(r.Pos)
+		res.Acqs = append(res.Acqs, *r)
+	}
+	sort.Slice(res.Acqs, func(i, j int) bool {
+		x, y := res.Acqs[i], res.Acqs[j]
+		if x.Func != y.Func {
+			return x.Func < y.Func
+		}
+
+		return fmt.Sprint(x.Lock, x.HeldShared, x.HeldExcl) < fmt.Sprint(y.Lock, y.HeldShared, y.HeldExcl)
+	})
+	usedKA := make([]bool, len(a.cfg.KnownAcqs))
+	for i := range res.Acqs {
+		r := &res.Acqs[i]
+		r.Site = i
+		if r.OK {
+			continue
+		}
+		res.Summary.UngatedAcqs++
+		for j, ka := range a.cfg.KnownAcqs {
+			if ka.Func == r.Func && ka.Lock == r.LockName {
+				r.Known = ka.Finding
+				usedKA[j] = true
+			}
+		}
+		if r.Known != "" {
+			res.Summary.KnownUngatedAcqs++
+		}
+	}
+	for j, ka := range a.cfg.KnownAcqs {
+		if !usedKA[j] {
+			res.StaleKnown = append(res.StaleKnown, fmt.Sprintf("acquisition %s %s (%s)", ka.Func, ka.Lock, ka.Finding))
+		}
+	}
+	res.ExemptAcqs = keys(a.exemptAcqs)
+	res.Summary.GatedAcqRows = len(res.Acqs)
+	res.Summary.ExemptAcqs = len(res.ExemptAcqs)
+	res.Summary.StaleKnown = len(res.StaleKnown)
 
 	for f, es := range a.entry {
 		if len(es.locks) == 0 || a.funcs[f] == nil {
